@@ -9,7 +9,7 @@ from harness.props import c06
 
 ID = "C07"
 REQUIRED_THEOREMS = ["binary_value", "string_raw_buffer", "text_whole", "text_terminated", "text_leading", "size_fixed",
-                     "size_reference_binary", "size_lookup_binary", "cursor_binary", "cursor_string"]
+                     "size_reference_binary", "size_lookup_binary", "size_lookup_string", "cursor_binary", "cursor_string"]
 RULE = ("requests `enc (str|bin ...) <packet> <pos> <items>`; all ten character encodings; buffer lengths 0..80 bits incl. "
         "non-multiples of 8 at offsets 0..7; three delimiters (whole buffer / termination bytes / leading size tag) x three "
         "length specifications (fixed / discrete lookup / parameter reference raw-or-calibrated with linear adjustment); "
@@ -185,10 +185,7 @@ def ref_size(e, items, is_str):
         try:
             for d in lk:
                 if all([c06._o_cmp(cm, its, None) for cm in d[1]]):
-                    v = _num(d[2])
-                    if is_str and v == 0:
-                        continue
-                    x = v
+                    x = _num(d[2])         # the first entry whose criteria all hold, whatever its value (0 too)
                     break
         except c06.Undefined:
             raise Out
